@@ -54,6 +54,35 @@ def _normal(ori, conv, hand):
     return n if hand == 'RIGHT_HANDED' else -n
 
 
+def _spell_conv(r, conv):
+    """every accepted spelling of an index convention: 'DR', ('D', 'R'), enum members, mixed"""
+    from highdicom.enum import PixelIndexDirections
+    k = r.randrange(4)
+    if k == 0 or len(conv) != 2:
+        return conv
+    if k == 1:
+        return tuple(conv)
+    if k == 2:
+        return tuple(PixelIndexDirections(x) for x in conv)
+    return [conv[0], PixelIndexDirections(conv[1])]
+
+
+def _spell_hand(r, hand):
+    from highdicom.enum import AxisHandedness
+    return AxisHandedness(hand) if r.random() < 0.5 else hand
+
+
+def _plain(v):
+    """spelling-independent form of an option value (for the model request and for JSON)"""
+    if isinstance(v, (list, tuple)):
+        return ''.join(_plain(x) for x in v)
+    return getattr(v, 'value', v)
+
+
+def _plain_opts(o):
+    return {k: (_plain(v) if k in ('index_convention', 'handedness') else v) for k, v in o.items()}
+
+
 def _orientation(r):
     row, col = AXIS_PAIRS[r.randrange(24)]
     if r.random() < 0.6:
@@ -65,7 +94,7 @@ def _orientation(r):
     return [float(x) for x in m @ row] + [float(x) for x in m @ col], 'oblique'
 
 
-SCENARIOS = ['regular', 'regular', 'regular', 'dups', 'gaps', 'gaps_hint', 'dups_gaps', 'jitter_in', 'jitter_out',
+SCENARIOS = ['regular', 'regular', 'wobble', 'wobble', 'wobble_dups', 'wobble_gaps', 'dups', 'gaps', 'gaps_hint', 'dups_gaps', 'jitter_in', 'jitter_out',
              'shear_in', 'shear_out', 'twin', 'hint_ok', 'hint_neg', 'hint_bad', 'unsorted', 'missing_jitter_in',
              'missing_jitter_out', 'irregular', 'single', 'all_same']
 
@@ -187,6 +216,21 @@ def _scenario(r, idx, want=None):
         ks = [k0 + i for i in range(n)]
         ks[-1] += r.choice([1, 2])          # the last gap is 2 or 3 spacings
         expect_ok = False
+    elif sc in ('wobble', 'wobble_dups', 'wobble_gaps'):
+        # every plane is moved IN its plane by a fraction of a micrometre (both in-plane axes): far inside every tolerance,
+        # but the lexicographic order of the rows (np.unique) no longer follows the order along the normal
+        n = max(n, 4)
+        ks = [k0 + i for i in range(n)]
+        if sc == 'wobble_gaps':
+            ks = [k0, k0 + 1] + [k0 + 2 * i + 1 for i in range(1, n - 1)]
+            opts['allow_missing_positions'] = True
+        for i in range(len(ks)):
+            offs[i] = (r.randint(-999, 999) * row + r.randint(-999, 999) * col) * 1e-7
+        if sc == 'wobble_dups':
+            j = r.randrange(len(ks))
+            ks.append(ks[j])
+            offs[len(ks) - 1] = offs[j]
+            opts['allow_duplicate_positions'] = True
     elif sc == 'all_same':
         ks = [k0] * max(n, 2)
         opts['allow_duplicate_positions'] = True
@@ -229,9 +273,9 @@ def _scenario(r, idx, want=None):
     if single_hint is not None:
         opts['spacing_hint'] = single_hint
     if conv != 'DR' or r.random() < 0.3:
-        opts['index_convention'] = conv if r.random() < 0.5 else tuple(conv)
+        opts['index_convention'] = _spell_conv(r, conv)
     if hand != 'RIGHT_HANDED' or r.random() < 0.3:
-        opts['handedness'] = hand
+        opts['handedness'] = _spell_hand(r, hand)
     pos = [pos[i] for i in order]
     ks = [ks[i] for i in order]
     positions = [[float(x) for x in p] for p in pos]
@@ -260,9 +304,9 @@ def _margs(sc):
         if py in o:
             a[k] = bool(o[py])
     if 'index_convention' in o:
-        a['conv'] = ''.join(o['index_convention'])
+        a['conv'] = _plain(o['index_convention'])
     if 'handedness' in o:
-        a['handedness'] = o['handedness']
+        a['handedness'] = _plain(o['handedness'])
     return a
 
 
@@ -360,7 +404,7 @@ def _position_cases(ctx, reqs, pend):
         st, val = _call(sp.get_volume_positions, sc['positions'], sc['ori'], **sc['opts'])
         obs = _observe(st, val)
         case = {'fn': 'get_volume_positions', 'i': i, 'scenario': sc['scenario'], 'positions': sc['positions'], 'ori': sc['ori'],
-                'opts': sc['opts'], 'expected': sc['expected']}
+                'opts': _plain_opts(sc['opts']), 'expected': sc['expected']}
         o = sc['opts']
         ctx.case(sample=case if i % 97 == 0 else None,
                  nontrivial_key=(sc['scenario'], len(sc['positions']), sc['cls'], obs[0], o.get('sort', True),
@@ -421,7 +465,7 @@ def _exhaustive_perms(ctx, reqs, pend):
                 st, val = _call(sp.get_volume_positions, pp, base['ori'], **opts)
                 obs = _observe(st, val)
                 sc = dict(base, positions=pp, opts=opts, expected=('ok', s, [k - min(kk) for k in kk]), scenario=variant, ks=kk)
-                case = {'fn': 'get_volume_positions', 'exhaustive': variant, 'n': n, 'perm': list(perm), 'positions': pp, 'ori': base['ori'], 'opts': opts}
+                case = {'fn': 'get_volume_positions', 'exhaustive': variant, 'n': n, 'perm': list(perm), 'positions': pp, 'ori': base['ori'], 'opts': _plain_opts(opts)}
                 ctx.case(scenario='exhaustive-' + variant, n=n, nontrivial_key=('ex', variant, n, perm))
                 _check_expected(ctx, case, obs, sc, site='permutation')
                 _check_order(ctx, case, obs, sc, site='permutation')
@@ -472,7 +516,7 @@ def _malformed_cases(ctx, reqs, pend):
         sc2 = dict(sc, positions=pos, ori=ori, opts=opts)
         st, val = _call(sp.get_volume_positions, pos, ori, **opts)
         obs = _observe(st, val)
-        case = {'fn': 'get_volume_positions', 'malformed': kind, 'positions': pos, 'ori': ori, 'opts': opts}
+        case = {'fn': 'get_volume_positions', 'malformed': kind, 'positions': pos, 'ori': ori, 'opts': _plain_opts(opts)}
         ctx.case(scenario='malformed-' + kind, outcome=obs[0])
         if refused and obs[0] != 'err':
             ctx.fail(case, {'what': 'malformed call accepted', 'got': obs}, site='malformed')
@@ -521,7 +565,7 @@ def _hint_drift_cases(ctx, reqs, pend):
         st, val = _call(sp.get_volume_positions, sc['positions'], sc['ori'], **sc['opts'])
         obs = _observe(st, val)
         case = {'fn': 'get_volume_positions', 'i': i, 'scenario': 'hint_drift', 'positions': sc['positions'], 'ori': sc['ori'],
-                'opts': sc['opts'], 'expected': sc['expected']}
+                'opts': _plain_opts(sc['opts']), 'expected': sc['expected']}
         ctx.case(scenario='hint_drift', n=len(sc['positions']), outcome=obs[0], expected=sc['expected'][0],
                  nontrivial_key=('hint_drift', i, obs[0]))
         before = len(ctx.failures)
@@ -573,6 +617,12 @@ def _permute_frames(ds, order):
     return out
 
 
+def _stored_values(ds):
+    """what a slice of the assembled volume must contain: the dataset's own stored values under the dataset's OWN modality
+    transform (RescaleSlope / RescaleIntercept), as float64 - independent of every other dataset of the series"""
+    return ds.pixel_array.astype(np.float64) * float(ds.RescaleSlope) + float(ds.RescaleIntercept)
+
+
 def _assembly_cases(ctx, reqs, pend):
     import highdicom as hd
     from highdicom import spatial as sp
@@ -595,6 +645,11 @@ def _assembly_cases(ctx, reqs, pend):
         if kind == 'series':
             base = sources.ct_series(nsl, rows, cols, orientation=ori, origin=origin, pixel_spacing=ps, slice_spacing=s,
                                      rng=np.random.default_rng(seedpix))
+            if i % 4 != 3:
+                # PET / MR style: every slice carries its own rescale parameters (dyadic, so the expectation is exact)
+                for ds in base:
+                    ds.RescaleSlope = r.choice([0.5, 1.0, 2.0, 1.25, 4.0])
+                    ds.RescaleIntercept = r.choice([0.0, -10.0, 7.5, 100.0, -1024.0])
             if irregular:
                 p = np.array([float(x) for x in base[-1].ImagePositionPatient]) + 0.5 * abs(s) * np.cross(np.array(ori[:3]), np.array(ori[3:]))
                 base[-1].ImagePositionPatient = [float(x) for x in p]
@@ -617,7 +672,7 @@ def _assembly_cases(ctx, reqs, pend):
             for k in range(nsl):
                 want_pos = v1.map_indices_to_reference(np.array([[k, 0, 0]]))[0]
                 hit = [d for d in shuffled if np.abs(np.array([float(x) for x in d.ImagePositionPatient]) - want_pos).max() < 1e-6 * (1 + np.abs(want_pos).max())]
-                if len(hit) != 1 or not np.array_equal(v1.array[k], hit[0].pixel_array.astype(v1.array.dtype)):
+                if len(hit) != 1 or not np.array_equal(v1.array[k], _stored_values(hit[0])):
                     ctx.fail(dict(case, slice=k), 'slice content is not the dataset at that position', site='get_volume_from_series')
                     break
             # sort_datasets yields that order; along the positive normal of the volume convention
@@ -631,15 +686,15 @@ def _assembly_cases(ctx, reqs, pend):
                     if any(b <= a for a, b in zip(dd, dd[1:])) or sorted(id(x) for x in srt) != sorted(id(x) for x in shuffled):
                         ctx.fail(case, {'what': 'sort_datasets is not increasing along the positive normal', 'd': dd}, site='sort_datasets')
                     for k in range(nsl):
-                        if not np.array_equal(v1.array[k], srt[k].pixel_array.astype(v1.array.dtype)):
+                        if not np.array_equal(v1.array[k], _stored_values(srt[k])):
                             ctx.fail(dict(case, slice=k), 'sort_datasets order differs from the assembled volume', site='sort_datasets')
                             break
                 st3, (sp3, vp3) = _call(sp.get_series_volume_positions, shuffled)
                 positions = [[float(x) for x in d.ImagePositionPatient] for d in shuffled]
                 reqs.append(('assembleSeries', {'positions': [RL(p) for p in positions], 'ori': RL(ori)}))
                 # observation through the public API: which input dataset became slice k, the volume position and spacing
-                src = [[int(np.array_equal(v1.array[k], d.pixel_array.astype(v1.array.dtype))) for d in shuffled].index(1) for k in range(nsl)] \
-                    if len({d.pixel_array.tobytes() for d in shuffled}) == nsl else None
+                match = [[int(np.array_equal(v1.array[k], _stored_values(d))) for d in shuffled] for k in range(nsl)]
+                src = [m.index(1) for m in match] if all(sum(m) == 1 for m in match) else None
                 pend.append((dict(case, fn='get_volume_from_series'), ('assembly', float(v1.spacing[0]), [float(x) for x in v1.position], src), False))
                 reqs.append(('planeSortIndex', {'positions': [RL(p) for p in positions], 'ori': RL(ori)}))
                 pend.append((dict(case, fn='get_plane_sort_index'), ('sortidx', sp.get_plane_sort_index(positions, ori)), False))
@@ -649,6 +704,16 @@ def _assembly_cases(ctx, reqs, pend):
                 order = [1, 0]
             base = sources.enhanced_multiframe(nsl, rows, cols, orientation=ori, origin=origin, pixel_spacing=ps, slice_spacing=s,
                                                rng=np.random.default_rng(seedpix))
+            if i % 4 != 1:
+                # every frame carries its own modality transform (per-frame Pixel Value Transformation)
+                from pydicom.dataset import Dataset as _DS
+                from pydicom.sequence import Sequence as _Seq
+                for it in base.PerFrameFunctionalGroupsSequence:
+                    t = _DS()
+                    t.RescaleSlope = r.choice([0.5, 1.0, 2.0, 1.25, 4.0])
+                    t.RescaleIntercept = r.choice([0.0, -10.0, 7.5, 100.0, -1024.0])
+                    t.RescaleType = 'US'
+                    it.PixelValueTransformationSequence = _Seq([t])
             if irregular:
                 it = base.PerFrameFunctionalGroupsSequence[-1].PlanePositionSequence[0]
                 p = np.array([float(x) for x in it.ImagePositionPatient]) + 0.5 * abs(s) * np.cross(np.array(ori[:3]), np.array(ori[3:]))
@@ -688,7 +753,10 @@ def _assembly_cases(ctx, reqs, pend):
             for k in range(nsl):
                 want_pos = v1.map_indices_to_reference(np.array([[k, 0, 0]]))[0]
                 hits = [f for f in range(nsl) if np.abs(np.array([float(x) for x in shuffled.PerFrameFunctionalGroupsSequence[f].PlanePositionSequence[0].ImagePositionPatient]) - want_pos).max() < 1e-6 * (1 + np.abs(want_pos).max())]
-                if len(hits) != 1 or not np.array_equal(v1.array[k], fr[hits[0]].astype(v1.array.dtype)):
+                if len(hits) == 1:
+                    pv = getattr(shuffled.PerFrameFunctionalGroupsSequence[hits[0]], 'PixelValueTransformationSequence', None)
+                    want_px = fr[hits[0]].astype(np.float64) * (float(pv[0].RescaleSlope) if pv else 1.0) + (float(pv[0].RescaleIntercept) if pv else 0.0)
+                if len(hits) != 1 or not np.array_equal(v1.array[k], want_px):
                     ctx.fail(dict(case, slice=k), 'slice content is not the frame at that position', site='Image.get_volume')
                     break
 
@@ -781,6 +849,58 @@ def _series_wrapper_cases(ctx, reqs, pend):
                     ctx.fail(dict(case, fn='sort_datasets'), 'datasets without a common orientation were sorted', site='sort_datasets')
 
 
+def _sort_index_cases(ctx, reqs, pend):
+    """get_plane_sort_index / get_dataset_sort_index / sort_datasets for every index convention and handedness in every
+    accepted spelling: the order must run along the positive normal of THAT convention and handedness, and must be the
+    order of the volume indices of get_volume_positions for the same options."""
+    from highdicom import spatial as sp
+    from gen import sources
+    n = ctx.n(64, 800)
+    combos = [(c, h) for c in CONVS for h in ('RIGHT_HANDED', 'LEFT_HANDED')]
+    for i in range(n):
+        r = ctx.rng('sortidx', i)
+        conv, hand = combos[i % len(combos)]
+        ori, cls = _orientation(r)
+        nsl = r.choice([2, 3, 4, 5, 6])
+        s = r.choice([0.5, 1.0, 1.5, 2.5])
+        nrm = _normal(ori, conv, hand)
+        origin = np.array([_dy(r, -100, 100) for _ in range(3)])
+        ks = list(range(nsl))
+        r.shuffle(ks)
+        positions = [[float(x) for x in origin + k * s * nrm] for k in ks]
+        kw = {}
+        # defaults are only left out when they ARE the defaults
+        if conv != 'DR' or r.random() < 0.5:
+            kw['index_convention'] = _spell_conv(r, conv)
+        if hand != 'RIGHT_HANDED' or r.random() < 0.5:
+            kw['handedness'] = _spell_hand(r, hand)
+        want = [ks.index(k) for k in range(nsl)]          # where plane k sits in the input
+        case = {'fn': 'get_plane_sort_index', 'i': i, 'positions': positions, 'ori': ori, 'opts': _plain_opts(kw), 'ks': ks}
+        st, idx = _call(sp.get_plane_sort_index, positions, ori, **kw)
+        ctx.case(scenario='sort-index', conv=conv, hand=hand, outcome=st if st == 'ok' else idx,
+                 nontrivial_key=('sortidx', conv, hand, type(kw.get('handedness')).__name__, type(kw.get('index_convention')).__name__))
+        if st != 'ok' or [int(x) for x in idx] != want:
+            ctx.fail(case, {'what': 'sort index does not run along the positive normal of the requested convention / handedness',
+                            'got': idx if st != 'ok' else [int(x) for x in idx], 'want': want}, site='get_plane_sort_index')
+        margs = {'positions': [RL(p) for p in positions], 'ori': RL(ori), 'conv': conv, 'handedness': hand}
+        reqs.append(('planeSortIndex', margs))
+        pend.append((case, ('sortidx', idx if st == 'ok' else []), False))
+        # the same through datasets, and against the volume indices for the same options
+        dss = sources.ct_series(nsl, 2, 2, orientation=ori, origin=[0.0, 0.0, 0.0])
+        for ds, p in zip(dss, positions):
+            ds.ImagePositionPatient = p
+        st2, idx2 = _call(sp.get_dataset_sort_index, dss, **kw)
+        st3, srt = _call(sp.sort_datasets, dss, **kw)
+        st4, vp = _call(sp.get_volume_positions, positions, ori, **kw)
+        if st2 != 'ok' or [int(x) for x in idx2] != want:
+            ctx.fail(dict(case, fn='get_dataset_sort_index'), {'got': idx2 if st2 != 'ok' else [int(x) for x in idx2], 'want': want}, site='sort_datasets')
+        if st3 != 'ok' or [id(x) for x in srt] != [id(dss[k]) for k in want]:
+            ctx.fail(dict(case, fn='sort_datasets'), 'datasets are not returned in the order of the plane numbers', site='sort_datasets')
+        if st4 != 'ok' or vp[1] is None or [int(x) for x in vp[1]] != ks:
+            ctx.fail(dict(case, fn='get_volume_positions'), {'what': 'volume indices differ from the plane numbers', 'got': repr(vp)[:200], 'want': ks},
+                     site='get_volume_positions')
+
+
 # ------------------------------------------------------------------ run
 def _compare(ctx, reqs, pend, pend2):
     answers = ctx.model(reqs)
@@ -863,6 +983,7 @@ def run(ctx):
     stage(lambda: _primitive_cases(ctx, reqs, pend2), pend2, 'q')
     stage(lambda: _assembly_cases(ctx, reqs, pend), pend, 'p')
     stage(lambda: _series_wrapper_cases(ctx, reqs, pend), pend, 'p')
+    stage(lambda: _sort_index_cases(ctx, reqs, pend), pend, 'p')
     stage(lambda: _hint_drift_cases(ctx, reqs, pend), pend, 'p')
     ctx._order = marks
     _compare(ctx, reqs, pend, pend2)
